@@ -543,7 +543,11 @@ def main():
     # known-finding obligations are reported separately and not counted as obligations of the claim
     known_obl = {(u['name'], f['obligation']) for u, f, k in known_hits}
     def counts(lst):
-        o = sum(r['obligations'] for _, r in lst)
+        # obligations matched by a committed known finding are reported under known_findings_reported and are not part
+        # of the claim: they are neither counted as obligations nor as discharged
+        names = {u['name'] for u, _ in lst}
+        nk = sum(1 for (un, _) in known_obl if un in names)
+        o = sum(r['obligations'] for _, r in lst) - nk
         d = sum(r['discharged'] for _, r in lst)
         return o, d
     po, pd = counts(proof_units)
